@@ -501,7 +501,7 @@ def hash_seed_for(seed: int, w: int) -> str:
 
 def run_pool(prop, tier, seed, budget_s=None, workers=None, max_runs=None,
              first_run=0, keep_digests=False, minimise_s=None,
-             hash_salt=0):
+             hash_salt=0, hash_fixed=None):
     """Start worker interpreters, wait, merge their results."""
     conf = dict(TIERS[tier])
     if budget_s is not None:
@@ -532,7 +532,10 @@ def run_pool(prop, tier, seed, budget_s=None, workers=None, max_runs=None,
         }
         env = dict(
             os.environ,
-            PYTHONHASHSEED=hash_seed_for(seed + hash_salt, w),
+            PYTHONHASHSEED=(
+                str(hash_fixed) if hash_fixed is not None
+                else hash_seed_for(seed + hash_salt, w)
+            ),
             PYTHONDONTWRITEBYTECODE="1",
             OMP_NUM_THREADS="1",
             OPENBLAS_NUM_THREADS="1",
